@@ -87,6 +87,28 @@ def one(pid, tpl, seed, keys, prop, mode, plen, wiring, history, idx):
             "spec_ok": spec_ok, "named": named, "stderr": (r1.err_text[-150:] + " | " + r2.err_text[-150:])}
 
 
+def foreign_passwords(pid, idx0):
+    """Password mode with passwords that are not UTF-8 (a Latin-1 locale): the tool may refuse such a password; if it takes
+    it, it takes it as given - a file encrypted under one byte string does not open under another."""
+    evs = []
+    pairs = [(b"caf\xe9", b"caf\xe8"), (b"\xff\xfe", b"\xfe\xff"), (b"na\xefve pw", "na\ufffdve pw".encode())]
+    for k, (pa, pb) in enumerate(pairs):
+        with cli.Sandbox(pid, "rtf") as sb:
+            plain = b"attack at dawn %d\n" % k
+            sb.write("plain.bin", plain)
+            r1 = cli.kestrel(["password", "encrypt", sb.path("plain.bin"), "-o", sb.path("ct.ktl"), "--env-pass"], raw_env={b"KESTREL_PASSWORD": pa})
+            ev = {"ev": "rtf", "id": "rtf%d" % (idx0 + k), "refused": r1.rc != 0, "own_ok": True, "other_rejected": True,
+                  "stderr": r1.err_text[-150:]}
+            if r1.rc == 0:
+                r2 = cli.kestrel(["password", "decrypt", sb.path("ct.ktl"), "-o", sb.path("o1.bin"), "--env-pass"], raw_env={b"KESTREL_PASSWORD": pa})
+                ev["own_ok"] = r2.rc == 0 and sb.read("o1.bin") == plain
+                r3 = cli.kestrel(["password", "decrypt", sb.path("ct.ktl"), "-o", sb.path("o2.bin"), "--env-pass"], raw_env={b"KESTREL_PASSWORD": pb})
+                ev["other_rejected"] = r3.rc != 0 and not sb.read("o2.bin")
+                ev["stderr"] += " | " + r3.err_text[-100:]
+            evs.append(ev)
+    return evs
+
+
 def run(rep, pid, tpl, seed, prop, mode, thorough):
     names = [("alice", b"alice-pw"), ("bob", b"bob-pw")]
     keys = cli.make_keys(pid, tpl, seed, names)
@@ -98,6 +120,10 @@ def run(rep, pid, tpl, seed, prop, mode, thorough):
                 cases.append((plen, wiring, history))
     with cf.ThreadPoolExecutor(max_workers=8) as ex:
         evs = list(ex.map(lambda ic: one(pid, tpl, seed, keys, prop, mode, ic[1][0], ic[1][1], ic[1][2], ic[0]), list(enumerate(cases))))
+    for e in evs:
+        e.setdefault("ev", "rt")
+    if mode == "pass" and prop == "C02":
+        evs += foreign_passwords(pid, len(evs))
     wd = workdir(pid, "run-clirt-" + mode, clean=True)
     tp = os.path.join(wd, "trace.ndjson")
     write_jsonl(tp, evs)
@@ -107,6 +133,9 @@ def run(rep, pid, tpl, seed, prop, mode, thorough):
         if pred.startswith("TOOL_"):
             raise ToolError("trace tooling mismatch %s: %s" % (pred, json.dumps(evs[ln - 1])[:500]))
         e = evs[ln - 1]
+        if e["ev"] == "rtf":
+            rep.violation("%s id=%s" % (pred, e["id"]), {"engine": "history", "observed": e})
+            continue
         rep.violation("%s id=%s plen=%d wiring=%s history=%s" % (pred, e["id"], e["plen"], e["wiring"], e["history"]),
                       {"engine": "clirt", "observed": e, "case": {"prop": prop, "mode": mode, "plen": e["plen"], "wiring": e["wiring"],
                                                                  "history": e["history"], "idx": int(e["id"][2:])}})
